@@ -10,3 +10,19 @@ package hosts
 //@   ensures result == nil && calls(hostsLookupMsg) == 1 && arg(hostsLookupMsg, 0, 1) == old(qCtx.query)
 //@   ensures ret(hostsLookupMsg, 0) != nil ==> calls(SetResponse) == 1 && arg(SetResponse, 0, 0) == qCtx && arg(SetResponse, 0, 1) == ret(hostsLookupMsg, 0)
 //@   ensures ret(hostsLookupMsg, 0) == nil ==> calls(SetResponse) == 0
+
+// NewHosts (C12): a hosts rule without prefix is a 'full:' rule (the documented default of the
+// hosts plugin: "example.com 1.2.3.4" answers example.com only, not its subdomains). The default
+// is set once, on the new set, before any rule is loaded; every entry and every file is loaded
+// into that set.
+//@ func NewHosts [C12]
+//@   requires args != nil
+//@   modifies *
+//@   ensures calls(NewMixMatcher) == 1 && calls(setDefaultMatcher) == 1 && arg(setDefaultMatcher, 0, 0) == ret(NewMixMatcher, 0) && arg(setDefaultMatcher, 0, 1) == "full"
+//@   ensures (result_0 != nil) != (result_1 != nil)
+//@   loop 0:
+//@     invariant m != nil && m == ret(NewMixMatcher, 0) && calls(setDefaultMatcher) == 1 && calls(NewMixMatcher) == 1 && 0 <= it0
+//@     each iter_calls(loadRule) == 1 && iter_arg(loadRule, 0, 0).val == m && iter_arg(loadRule, 0, 1) == entry && iter_ret(loadRule, 0) == nil
+//@   loop 1:
+//@     invariant m != nil && m == ret(NewMixMatcher, 0) && calls(setDefaultMatcher) == 1 && calls(NewMixMatcher) == 1 && 0 <= it1
+//@     each iter_calls(loadFromTextReader) == 1 && iter_arg(loadFromTextReader, 0, 0).val == m && iter_ret(loadFromTextReader, 0) == nil
